@@ -149,7 +149,8 @@ type session struct {
 	accepted map[blob.Ref]int    // accepted attempts per ref through a hub-notifying path
 	accTot   int
 
-	opt scriptOpt // family-specific shape of the offer script (zero value: the normal session)
+	degraded int       // overlap rounds in which an offer did not show up at its pause in time
+	opt      scriptOpt // family-specific shape of the offer script (zero value: the normal session)
 
 	rec     sessRec
 	n       int
